@@ -208,7 +208,7 @@ def coq_bad_indices(prop, name, imports, ok_fun, case_type, items, shard=400, pr
     (each holding the input and what the IMPLEMENTATION answered); `ok_fun : case_type -> bool` runs the
     model on the input and compares.  Returns the sorted list of indices on which model and implementation
     differ.  One file per shard, `Eval vm_compute in bad_indices ok cases`, run under xargs-like parallelism."""
-    d = os.path.join(WORK, "cases", prop, name)
+    d = os.path.join(WORK, "cases", prop, "%s-%d" % (name, os.getpid()))     # per process: concurrent runs of one check must not share it
     shutil.rmtree(d, ignore_errors=True)
     os.makedirs(d)
     shards = [items[i:i + shard] for i in range(0, len(items), shard)]
@@ -255,6 +255,8 @@ def coq_bad_indices(prop, name, imports, ok_fun, case_type, items, shard=400, pr
             os.remove(junk)
         except OSError:
             pass
+    if not errors and not bad:
+        shutil.rmtree(d, ignore_errors=True)
     if errors:
         raise RuntimeError("case evaluation failed in Coq (%s/%s):\n%s" % (prop, name, "\n".join(errors[:3])))
     return sorted(bad)
